@@ -86,6 +86,18 @@ class Activate:
             b = iter_base(b[1])[0]
         return b
 
+    def first_effect(self, head: Node) -> Node:
+        """The first statement of an iteration that does something other than binding a local name to a call-free expression."""
+        n = body_entry(head)
+        for _ in range(8):
+            a = n.ast
+            if n.kind == "stmt" and isinstance(a, (ast.Assign, ast.AnnAssign)) and not self.cfg.calls_in(n) and len(n.succ) == 1 and \
+                    all(isinstance(t, ast.Name) for t in (a.targets if isinstance(a, ast.Assign) else [a.target])):
+                n = n.succ[0][0]
+                continue
+            break
+        return n
+
     def deactivation(self) -> tuple[bool, Any]:
         """Every rule's activation state is reset before any degree is computed: either deactivate() opens every iteration of
         the main loop, or an earlier loop over *all* rules of the block deactivates each of them unconditionally."""
@@ -96,14 +108,14 @@ class Activate:
                   + method_calls_on(r, self.is_rule, "trigger", body)]
         if deact and not self.filter:
             ok = all(iter_precedes(cfg, head, [n for n, _, _ in deact], t) for t in others) and \
-                (deact[0][0] is body_entry(head) or iter_precedes(cfg, head, [n for n, _, _ in deact], body_entry(head)))
+                (deact[0][0] is self.first_effect(head) or iter_precedes(cfg, head, [n for n, _, _ in deact], self.first_effect(head)))
             return ok, deact[0][0]
         for h, base, _ in self.loops:
             if h is head or base[0] == "filtered" or not cfg.dominates(h, head) or head in cfg.loop_body(h):
                 continue
             b = cfg.loop_body(h)
             d = method_calls_on(r, self.is_rule, "deactivate", b)
-            if d and not early_exits(cfg, h) and (d[0][0] is body_entry(h) or iter_precedes(cfg, h, [n for n, _, _ in d], body_entry(h))):
+            if d and not early_exits(cfg, h) and (d[0][0] is self.first_effect(h) or iter_precedes(cfg, h, [n for n, _, _ in d], self.first_effect(h))):
                 return True, d[0][0]
         return False, (deact[0][0] if deact else head)
 
